@@ -9,6 +9,30 @@ HERE = os.path.dirname(os.path.dirname(os.path.abspath(__file__)))
 
 # id -> (category, technique, level text, level note, design ref, engine)
 CHECKS = {
+    "C01": (
+        "exploration",
+        "trace monitor on a check-owned backend (seeded completion order, 1-3 callback threads, synchronous in-submit completion) with sys.monitoring pre-emption injection, instrumented input and execution log; real backends in subprocess sessions",
+        "Parallel calls over the configuration space (N around every slice boundary, n_jobs, fixed/auto batch size, every pre_dispatch form, list/generator) run on a backend plugged in through joblib's public backend API whose completion order, callback threads and in-submit completions are chosen by the check, with seeded thread switches injected at line granularity inside joblib/parallel.py; the result list must equal the sequential evaluation, every task index must appear exactly once in the execution log, no item may be submitted twice and the input must never be entered by two threads. The same oracle runs on threading, loky, multiprocessing and the sequential path with seeded task durations.",
+        "Schedules are sampled, not enumerated (distinct completion orders are counted); hangs are decided by quiescence of the check-owned backend, never by a clock alone.",
+        "3/C01", "scripted-backend"),
+    "C04": (
+        "exploration",
+        "history monitor on the check-owned backend: fail/ok/iterator-failure/timeout histories on one Parallel object with late completions delivered after the abort, during the next call's set-up and after it started; real backends with resource-growth counters",
+        "Histories of 2-6 calls on one Parallel object (inside and outside with) mix successful calls, task failures at any position, failing iterator steps and never-completing batches under a timeout; the check delivers completions in seeded order from 1-3 threads, including completions of aborted batches while the next call is being configured or running. Each call must raise an exception carrying this call's tag (or TimeoutError), terminate, and the next call must return exactly its own results; thread and child-process counts are bounded over repeated cycles on threading / loky / multiprocessing.",
+        "Timeout verdicts are logical (quiescent backend, only the deliberately held batch pending); a TimeoutError in a call whose batches all complete is counted inconclusive.",
+        "3/C04", "scripted-backend"),
+    "C09": (
+        "exploration",
+        "event-log monitor: instrumented input iterator + submit/complete events of the check-owned backend; withheld completions released one at a time, failure/close followed by late completions, free-running and adversarial start-phase schedules",
+        "With every completion withheld the number of items taken must stop by itself at the pre-dispatch amount (all of them for 'all'); releasing one batch at a time, pulled-completed must stay within G = B0*b + b*n_jobs, in-flight batches within B0 and each completion may let at most one slice through; after a registered failure (also one delivered while the caller is still in its initial dispatch loop) or a closed generator no further item may be taken whatever completes later; free-running seeded schedules check the same invariants at every pull with stolen in-flight slots accounted, and re-entrancy of the input.",
+        "G is derived from the dispatch arithmetic (confirmed on the tree); the start-phase steal is recorded as a known finding and tolerated only within its accounting.",
+        "3/C09", "scripted-backend"),
+    "C16": (
+        "exploration",
+        "stepped schedule monitor: the check completes batches one at a time and pulls every due result with no other batch released; abandonment (close / drop+gc / overlapping call) at seeded points; gated runs on threading and loky",
+        "For generator and generator_unordered outputs the check decides the completion order batch by batch; whenever a result is due (its batch and all earlier ones completed) next() must deliver exactly the promised value while nothing else is released - delivery only after a later release is the violation witness; unordered outputs must follow completion order, each exactly once. At seeded points the generator is closed (in the dispatching thread or another one), dropped and collected, or the object is called again: no submit or pull may follow, late completions must be harmless, an unfinished run must reject a new call with RuntimeError, and the next call must be exact.",
+        "Promptness at batch granularity (statement verbatim for batch_size=1, which the real-backend runs use); 5 s per due result is a watchdog that only classifies - the verdict needs the release witness.",
+        "3/C16", "scripted-backend"),
     "C03": (
         "exploration",
         "runtime round-trip monitor: real dump/load on generated objects under sampled (compress, protocol, target, load-from) combinations, structural-isomorphism oracle, renamed-file reloads",
@@ -107,6 +131,10 @@ def main():
 NOT_APPLICABLE = {}
 
 ENGINES = [
+    dict(name="scripted-backend", path="vlib/scripted_backend.py", serves_properties=["C01", "C04", "C09", "C16"],
+         kind_free_text="ParallelBackendBase subclass whose completion schedule (order, callback thread, in-submit completion, late completions) is owned by the check; trace monitor; instrumented input iterator"),
+    dict(name="yield-injector", path="vlib/yieldinj.py", serves_properties=["C01", "C04", "C09"],
+         kind_free_text="seeded pre-emption injection and check-owned scheduling points via sys.monitoring LINE events on joblib/parallel.py and _parallel_backends.py"),
     dict(name="objuniverse", path="vlib/gen_obj.py", serves_properties=["C08", "C03", "C14", "C02", "C06"],
          kind_free_text="seeded recursive universe of builtin values as specs: builder with permutable insertion order, canonical form, structural isomorphism (equality + aliasing)"),
     dict(name="budgets", path="vlib/budget.py", serves_properties=["C13", "C14", "C03"],
